@@ -148,7 +148,12 @@ C19all == (OnlyMatch /\ ~cf.debug) => DebugNeutral
 C19noties == (OnlyMatch /\ ~cf.debug /\ NoTies(M.lat) /\ NoTies(FreshMatch(I, [cf EXCEPT !.debug = TRUE], M.n).M.lat)) => DebugNeutral
 \* C10 / C16 at design level: reversing every neighbour list (listing order) leaves the canonical result unchanged
 RevI == [I EXCEPT !.nbrs = [n \in DOMAIN I.nbrs |-> Reverse(I.nbrs[n])]]
-C10order == OnlyMatch => Canon(FreshMatch(RevI, cf, M.n)) = Canon([M |-> M, R |-> R])
+\* Reversing every neighbour list leaves the canonical result unchanged.  Claimed for the emitting-only search; with
+\* non-emitting states it holds on small scopes only: the search admits candidates against the side table in proposal
+\* order and the visited-node filter follows the kept predecessor (finding F-ne-order), and TLC produces a
+\* counterexample to C10orderNE on the larger scope of the thorough tier.
+C10order == (OnlyMatch /\ ~cf.ne) => Canon(FreshMatch(RevI, cf, M.n)) = Canon([M |-> M, R |-> R])
+C10orderNE == (OnlyMatch /\ cf.ne) => Canon(FreshMatch(RevI, cf, M.n)) = Canon([M |-> M, R |-> R])
 
 \* a fresh call on a used matcher gives exactly what a new matcher gives
 ReuseIsFresh == (hist # << >> /\ hist[Len(hist)].op = "match") =>
